@@ -82,6 +82,32 @@ def load_as(ctx, schema, text, entry, specs):
     return outcome.load_text(schema, text)
 
 
+def attr_orders(config):
+    """getSectionAttributes() of every section value, in traversal order."""
+    out = []
+    seen = set()
+
+    def rec(v):
+        if id(v) in seen:
+            return
+        if isinstance(v, (list, tuple)):
+            for x in v:
+                rec(x)
+        elif isinstance(v, dict):
+            for k in v:
+                rec(v[k])
+        elif outcome.is_wrapped(v):
+            rec(v.section)
+        elif hasattr(v, "getSectionAttributes"):
+            seen.add(id(v))
+            names = list(v.getSectionAttributes())
+            out.append(names)
+            for a in names:
+                rec(getattr(v, a, None))
+    rec(config)
+    return out
+
+
 def compare(ctx, schema, corpus, base_text, root, case_extra, n_rewrites=3,
             ovr=None):
     res = ctx.res
@@ -120,6 +146,17 @@ def compare(ctx, schema, corpus, base_text, root, case_extra, n_rewrites=3,
         res.sample("%s-%s" % (corpus, o0[0]), case, 1)
         k0 = o0[:2] if o0[0] == "ok" else ("reject",)
         k1 = o1[:2] if o1[0] == "ok" else ("reject",)
+        if k0 == k1 and o0[0] == "ok":
+            # the sequence in which a section value lists its attributes
+            # does not depend on the order of the lines either
+            a0, a1 = attr_orders(o0[3][0]), attr_orders(o1[3][0])
+            res.count("attribute_orders_compared")
+            if a0 != a1:
+                res.violate("attribute-order-changed-by-layout", case,
+                            a0[:6], a1[:6],
+                            detail="kinds=%s original=%r rewritten=%r"
+                            % (kinds, base_text, text),
+                            vsig="attrorder|%s" % "+".join(kinds))
         if k0 != k1:
             res.violate(
                 "outcome-changed-by-layout", case,
